@@ -323,7 +323,7 @@ func (r *Run) conv(dst, src types.Type, v Value) Value {
 			if p.A == nil && p.V == nil {
 				return smt.Const(64, 0)
 			}
-			panic(unsupported("unsafe.Pointer -> uintptr"))
+			return Poison{"unsafe.Pointer -> uintptr"}
 		}
 	}
 	switch d := du.(type) {
